@@ -17,6 +17,15 @@ def run_property(prop, root='/repo', tier='quick', replay_key=None, seed=0):
     ctx = Ctx(root)
     rep = Report(prop, tier, root, seed)
     REGISTRY[prop](ctx, rep)
+    if tier == 'thorough' and replay_key is None:
+        # test the checker both ways before believing its verdict
+        from .selftest import run_selftest
+        summary = run_selftest(prop, root)
+        rep.stat('selftest', summary)
+        print('%s self-test: %d/%d must-fire variants reported, %d/%d must-stay-silent variants silent%s'
+              % (prop, summary.get('fired', 0), summary.get('must_fire', 0), summary.get('silent', 0),
+                 summary.get('must_stay_silent', 0),
+                 (', not applicable: %d' % len(summary['not_applicable'])) if summary.get('not_applicable') else ''))
     return rep.finish(replay_key)
 
 
@@ -37,11 +46,7 @@ def main(argv=None):
             with open(args.replay) as f:
                 r = json.load(f)
             replay_key = [r['rule'], r['file'], r['function'], r['construct']]
-        status = run_property(args.prop, args.root, args.tier, replay_key, seed)
-        if status == 0 and args.tier == 'thorough' and not args.replay:
-            from .selftest import run_selftest
-            status = run_selftest(args.prop, args.root)
-        return status
+        return run_property(args.prop, args.root, args.tier, replay_key, seed)
     except AnalysisError as e:
         print('ANALYSIS-ERROR property=%s %s' % (args.prop, e))
         return 2
